@@ -96,6 +96,7 @@ class Interp:
         self.model_used = {}
         self.stack_keys = []
         self.inv_checks = {}
+        self.local_models = {}       # workspace callee key -> model (assume-guarantee summaries supplied by a rule)
         self.purefun = {}            # canonical result variable of a pure integer function -> its argument variables
         self.ret_hooks = {}          # workspace callee key -> fn(interp, state, caller frame, return value): rule-supplied ghosts
         self._cur = (0, 0, 0)
@@ -327,20 +328,30 @@ class Interp:
         if not isinstance(g, Struct):
             return
         hw, zlo, broken = g.get(0).e, g.get(1).e, g.get(2).e
+        plo = g.get(3).e if isinstance(g.get(3), Num) else Lin.const(-1)
+        phi_ = g.get(4).e if isinstance(g.get(4), Num) else Lin.const(-1)
         a, b = off + lo, off + hi
+        has_pending = not (st.sys.const_value(plo) == -1)
+
+        def put(nhw, nz, nb, npl=plo, nph=phi_):
+            # a pending segment that has become adjacent is absorbed
+            if not (st.sys.const_value(npl) == -1) and st.sys.entails_eq(npl - nhw):
+                nhw, nz, npl, nph = nph, nph, Lin.const(-1), Lin.const(-1)
+            st.cells[cell] = Struct({0: Num(nhw), 1: Num(nz), 2: Num(nb), 3: Num(npl), 4: Num(nph)})
         if st.sys.entails_eq(a - hw) or (st.sys.entails_ge(hw - a) and st.sys.entails_ge(b - hw) and kind == "zero" and st.sys.entails_ge(a - zlo)):
             # append (or a zero write overlapping only the trailing zero run)
-            nhw = b
-            nz = zlo if kind == "zero" else b
-            st.cells[cell] = Struct({0: Num(nhw), 1: Num(nz), 2: Num(broken)})
+            put(b, zlo if kind == "zero" else b, broken)
         elif st.sys.entails_ge(hw - b):
             # rewrite of bytes already written
             if kind == "zero" and not st.sys.entails_ge(a - zlo):
-                st.cells[cell] = Struct({0: Num(hw), 1: Num(zlo), 2: Num(Lin.const(1))})      # zero-fill over data already written
+                put(hw, zlo, Lin.const(1))      # zero-fill over data already written
             elif kind != "zero" and not st.sys.entails_ge(zlo - b):
-                st.cells[cell] = Struct({0: Num(hw), 1: Num(hw), 2: Num(broken)})
+                put(hw, hw, broken)
+        elif not has_pending and st.sys.entails_ge(a - hw - 1):
+            # one out-of-order segment ahead of the high-water mark may be pending until the gap is filled
+            put(hw, zlo, broken, a, b)
         else:
-            st.cells[cell] = Struct({0: Num(hw), 1: Num(zlo), 2: Num(Lin.const(1))})          # gap or unknown position
+            put(hw, zlo, Lin.const(1))          # gap or unknown position
 
     def is_zero_value(self, st, v):
         return isinstance(v, Num) and st.sys.const_value(v.e) == 0
@@ -534,10 +545,16 @@ class Interp:
         if base == "Rem" and cb is not None and cb > 0 and unsigned:
             if ca is not None:
                 return Num(Lin.const(int(ca) % int(cb)))
-            r = self.fresh_num(st, 0, int(cb) - 1, "rem")
-            q = self.fresh_num(st, 0, None, "ghostq")
+            # remainder and quotient are functions of the dividend: name them after it, so repeated `x % c` agree
+            hx = hash_str("%r|%d" % (st.sys.reduce(ea), int(cb))) & 0xffffffffffff
+            rn, qn = "rm%x" % hx, "rq%x_ghostq" % hx
+            r = Num(Lin.var(rn))
+            q = Num(Lin.var(qn))
+            st.sys.add_range(r.e, 0, int(cb) - 1)
+            st.sys.add_ge(q.e)
             st.sys.add_eq(ea - q.e.scale(int(cb)) - r.e)      # a = c*q + r
-            self.ghosts[next(iter(q.e.t))] = (ea, int(cb))
+            self.ghosts[qn] = (ea, int(cb))
+            self.purefun[rn] = set(ea.t)
             return r
         if base == "Div" and cb is not None and cb > 0 and unsigned:
             if ca is not None:
@@ -1443,6 +1460,11 @@ class Interp:
         if local:
             multi = len(local) > 1
             for x in local:
+                lm = self.local_models.get(x[1]) or self.local_models.get(self.prog.bodies[x[1]].defp)
+                if lm is not None:
+                    ctx = CallCtx(self, st.copy() if (multi or nonlocal_) else st, fr, bb, part, x[1], args, t)
+                    results.extend(lm(ctx))
+                    continue
                 res = self.call_local(st.copy() if (multi or nonlocal_) else st, fr, bb, x[1], args, t, part=part)
                 results.extend(res)
         for x in nonlocal_:
@@ -1727,6 +1749,9 @@ class CallCtx:
                 self.it.escaped.add(v.tag)
             for x in v.f.values():
                 self.escape(x, depth + 1)
+        elif isinstance(v, Iter):
+            for m_ in v.maps:      # closures of a lazy adaptor consumed by opaque code
+                self.escape(m_, depth + 1)
         elif isinstance(v, FnV):
             self.it.escaped.add(v.key)
         elif isinstance(v, Ref):
